@@ -1,12 +1,15 @@
 #!/bin/bash
-# Run every seeded change under /verif/seeded against its own property's check and related
-# checks (quick tier) and record which checks catch it.  Writes seeded/MATRIX.tsv.
+# Run seeded changes under /verif/seeded against their own property's check and related checks
+# (quick tier, PBSIM_FAST: no minimisation) and record which checks catch them.
+#   tools/seeded_matrix.sh [glob]      (default: all)   -> appends/updates seeded/MATRIX.tsv
 cd /verif || exit 2
-declare -A REL=( [C01]="C01 C02 C13" [C02]="C02 C12 C06" [C03]="C03 C04 C08" [C04]="C04 C14 C05" [C05]="C05 C10" [C06]="C06 C02 C01" [C07]="C07 C08" [C08]="C08 C07" [C10]="C10 C16 C05" [C11]="C11 C06" [C12]="C12 C06" [C13]="C13 C15 C12" [C14]="C14 C08" [C15]="C15 C13" [C16]="C16 C10" [C18]="C18" )
+declare -A REL=( [C01]="C01 C02 C13" [C02]="C02 C12 C06" [C03]="C03 C04 C08" [C04]="C04 C14 C05" [C05]="C05 C10" [C06]="C06 C02 C01" [C07]="C07 C08 C05" [C08]="C08 C07" [C10]="C10 C16 C05" [C11]="C11 C06" [C12]="C12 C06" [C13]="C13 C15 C12" [C14]="C14 C08" [C15]="C15 C13" [C16]="C16 C10" [C18]="C18" )
 out=seeded/MATRIX.tsv
-: > $out
-for d in seeded/*/; do
+touch $out
+for d in seeded/${1:-*}/; do
     name=$(basename $d); cid=${name%%-*}
-    res=$(PBSIM_FAST=1 tools/try_mutant.sh $(realpath $d)/patch.diff ${REL[$cid]} 2>&1 | grep -E "^C[0-9]+ exit=" | awk '{print $1":"$2}' | tr '\n' ' ')
+    res=$(PBSIM_FAST=1 tools/try_mutant.sh $(realpath $d)/patch.diff ${CHECKS:-${REL[$cid]}} 2>&1 | grep -E "^C[0-9]+ exit=" | awk '{print $1":"$2}' | tr '\n' ' ')
+    grep -v "^$name	" $out > $out.tmp; mv $out.tmp $out
     echo -e "$name\t$res" | tee -a $out
 done
+sort -o $out $out
